@@ -83,20 +83,29 @@ def _contributions(scen, system, spring, grav=True):
     if scen == "rb_pend":
         b = _rb(1.3, (0.06, 0.09, 0.12), Q @ [0.7, 0.0, 0.0], pg, "pend")
         bodies = [b]
-        rest.append(Revolute(O, b, 1, r_OJ0=np.zeros(3), A_IJ0=Q, name="rev"))  # axis Q e_y: nearly horizontal
+        rev = Revolute(O, b, 1, r_OJ0=np.zeros(3), A_IJ0=Q, name="rev")  # axis Q e_y: nearly horizontal
+        rest.append(rev)
         gravity(b, 1.3)
         if spring:
             rest += _spring(system, b, [0.5, 0.5, 0.6], [0.1, 0.05, -0.1], 40.0, 0.4)
+            # the "+spring" force letter also carries an actuator on the joint (W_tau la_tau couples to the constraint)
+            from cardillo.actuators import PDcontroller
+
+            rest.append(PDcontroller(rev, 6.0, 0.4, np.array([0.5, 0.0])))
     elif scen == "double_pend":
         b1 = _rb(1.0, (0.05, 0.08, 0.1), Q @ [0.5, 0.0, 0.0], pg, "b1")
         b2 = _rb(0.7, (0.03, 0.05, 0.04), Q @ [1.4, 0.0, 0.1], (1, 0, 0, 0), "b2")
         bodies = [b1, b2]
         rest.append(Spherical(O, b1, r_OJ0=np.zeros(3), name="sph"))
-        rest.append(Revolute(b1, b2, 1, r_OJ0=Q @ [1.0, 0.0, 0.0], A_IJ0=Q, name="rev"))
+        rev = Revolute(b1, b2, 1, r_OJ0=Q @ [1.0, 0.0, 0.0], A_IJ0=Q, name="rev")
+        rest.append(rev)
         gravity(b1, 1.0)
         gravity(b2, 0.7)
         if spring:
             rest += _spring(system, b2, [1.0, 1.0, 0.0], [0.1, 0.0, 0.0], 25.0, 0.8)
+            from cardillo.actuators import Motor
+
+            rest.append(Motor(rev, lambda t: 1.5 + 2.0 * t))
     elif scen == "pm_pend":
         d = np.array([0.8, 0.36, -0.48])
         pm = PointMass(2.0, q0=1.1 * d / np.linalg.norm(d), u0=np.zeros(3), name="pm")
